@@ -35,7 +35,7 @@ func buildUniverse() []Obj {
 	// characters and strings differing in case; characters vs one-char strings
 	add(chr("a"), chr("A"), chr("a"), chr("b"), chr("1"), chr("é"), chr("É"))
 	add(str("a"), str("A"), str("a"), str("b"), str(""), str(""), str("abc"), str("ABC"), str("aBc"), str("abc"),
-		str("1"), str("é"), str("É"), str("nil"), str("t"), str("abd"), str("ab"))
+		str("1"), str("é"), str("É"), str("nil"), str("t"), str("abd"), str("ab"), str("az"), str("AZ"), list(str("fizz"), fix(1)), list(str("FIZZ"), fix(1)))
 	// symbols
 	add(sym("a"), sym("a"), sym("b"), sym("abc"), key("a"), key("abc"), objT, objNil, objNil, sym("nil1"))
 	// lists built twice, differing in number representation, case, length, tail
@@ -146,7 +146,7 @@ func nearOf(r *rand.Rand, o Obj) Obj {
 
 var strFamilies = [][]Obj{
 	{str("a"), str("A")}, {str("abc"), str("ABC"), str("Abc")}, {str("x1"), str("X1")}, {str("")}, {str("é"), str("É")},
-	{str("b")}, {str("hello world"), str("Hello World")},
+	{str("b")}, {str("hello world"), str("Hello World")}, {str("fizz"), str("FIZZ"), str("fiZz")},
 }
 
 var charFamilies = [][]Obj{
